@@ -523,6 +523,9 @@ def gen_consent(rng, i):
     opts = [rng.choice([0, OPT_REGULAR]) | (OPT_CONSENT if rng.random() < 0.75 else 0) for _ in (0, 1)]
     if kind == "revoke":
         opts = [o | OPT_CONSENT for o in opts]
+    reliable = kind == "revoke" and rng.random() < 0.3
+    if reliable:
+        opts = [o | OPT_RELIABLE for o in opts]      # reliable mode: application data travels through pseudo-TCP, the send gate must hold there too
     ncomp = rng.choice([1, 1, 2])
     delay = rng.choice([1, 5, 20, 50])
     ips = (("10.0.0.1",), ("10.0.1.1",))
@@ -534,7 +537,7 @@ def gen_consent(rng, i):
     ops += ["gather,0,1", "gather,1,1", "run,10"]
     meta = {"kind": "consent-" + kind, "ncomp": ncomp, "delay": delay, "opts": opts}
     if kind == "revoke":
-        when = rng.choice(["early", "mid", "ready"])
+        when = "ready" if reliable else rng.choice(["early", "mid", "ready"])
         who = rng.randrange(2); comp = rng.randrange(1, ncomp + 1)
         meta.update(who=who, comp=comp, when=when)
         sig = signalling(rng, ncomp)
@@ -612,10 +615,34 @@ def oracle_restart_silence(evs, meta):
     return None
 
 
+def oracle_consent_reliable(evs, meta):
+    """reliable mode (application data travels through pseudo-TCP): only the send gate is judged - once an agent has announced FAILED for a
+    component within 2 s of the peer revoking its consent (i.e. because of the 403 answers), its sends on that component during the next
+    8 s must be refused with a permission error.  (Later the transport itself gives up and other errors are legitimate; FAILED of the
+    revoking side comes from its pseudo-TCP connection timing out.)"""
+    who = meta["who"]; comp = str(meta["comp"]); victim = str(1 - who)
+    t_rev = next((e.t for e in evs if e.kind == "api" and e.f[0] == str(who) and e.f[1] == "consent_lost" and e.f[-1] == "=1"), None)
+    if t_rev is None:
+        return "nice_agent_consent_lost returned FALSE on an agent with consent freshness"
+    ready = next((e.t for e in evs if e.kind == "sig" and e.f[0] == victim and e.f[1] == "state" and e.f[3] == comp and e.f[4] == "READY"), None)
+    if ready is None or ready > t_rev:
+        return None
+    failed = next((e.t for e in evs if e.kind == "sig" and e.f[0] == victim and e.f[1] == "state" and e.f[3] == comp and e.f[4] == "FAILED" and e.t >= t_rev), None)
+    if failed is None or failed > t_rev + 8000:
+        return "agent %s did not announce FAILED within 8 s of the peer revoking its consent at t=%d (403 answers to its consent checks)" % (victim, t_rev)
+    for e in evs:
+        if e.kind == "api" and e.f[0] == victim and e.f[1] == "send" and e.f[3] == comp and failed < e.t <= failed + 8000:
+            if e.f[-1] != "=-1" or "err=%d" % G_IO_ERROR_PERMISSION_DENIED not in e.f:
+                return "agent %s (reliable mode): send at t=%d after consent was lost (FAILED at t=%d) returned %s %s instead of a permission error" % (victim, e.t, failed, e.f[-1], e.f[-2])
+    return None
+
+
 def oracle_consent(evs, meta):
     if meta["kind"] == "consent-restart":
         return oracle_restart_silence(evs, meta)
     delay = meta["delay"]; opts = meta["opts"]; ncomp = meta["ncomp"]
+    if opts[0] & OPT_RELIABLE:
+        return oracle_consent_reliable(evs, meta)
     SLACK = 60     # ms: Ta pacing of keepalives across components + dispatch
     for x in (0, 1):
         fresh = bool(opts[x] & OPT_CONSENT)
